@@ -189,3 +189,48 @@ func ForeignCert(g *mon.Rand, kind, host string) *x509.Certificate {
 	}
 	return c
 }
+
+// DERVariants re-encodes an ASN.1 Ecdsa-Sig-Value SEQUENCE{INTEGER r, INTEGER s} in ways that keep r and s but are not
+// the DER the signer produced: a superfluous leading zero octet, a dropped sign octet, long-form lengths, an indefinite
+// length, trailing bytes inside and outside the SEQUENCE. A verifier that accepts one of them lets anyone change the
+// signature bytes of a signed artifact without invalidating it. Returns nil if sig is not in the expected shape.
+func DERVariants(sig []byte) map[string][]byte {
+	if len(sig) < 8 || sig[0] != 0x30 || int(sig[1]) != len(sig)-2 || sig[1] >= 0x80 || sig[2] != 0x02 {
+		return nil
+	}
+	lr := int(sig[3])
+	if 4+lr+2 > len(sig) || sig[4+lr] != 0x02 {
+		return nil
+	}
+	r := sig[4 : 4+lr]
+	ls := int(sig[5+lr])
+	if 6+lr+ls != len(sig) {
+		return nil
+	}
+	s := sig[6+lr:]
+	integer := func(v []byte) []byte { return append([]byte{0x02, byte(len(v))}, v...) }
+	seq := func(body []byte) []byte { return append([]byte{0x30, byte(len(body))}, body...) }
+	cat := func(a, b []byte) []byte { return append(append([]byte{}, a...), b...) }
+	out := map[string][]byte{}
+	out["r-extra-leading-zero"] = seq(cat(integer(cat([]byte{0}, r)), integer(s)))
+	out["s-extra-leading-zero"] = seq(cat(integer(r), integer(cat([]byte{0}, s))))
+	if len(r) > 1 && r[0] == 0 {
+		out["r-sign-octet-dropped"] = seq(cat(integer(r[1:]), integer(s)))
+	}
+	if len(s) > 1 && s[0] == 0 {
+		out["s-sign-octet-dropped"] = seq(cat(integer(r), integer(s[1:])))
+	}
+	body := cat(integer(r), integer(s))
+	out["sequence-long-form-length"] = cat([]byte{0x30, 0x81, byte(len(body))}, body)
+	out["integer-long-form-length"] = seq(cat(cat([]byte{0x02, 0x81, byte(len(r))}, r), integer(s)))
+	out["sequence-indefinite-length"] = cat(cat([]byte{0x30, 0x80}, body), []byte{0, 0})
+	out["trailing-byte-after-sequence"] = cat(sig, []byte{0})
+	out["trailing-null-inside-sequence"] = seq(cat(body, []byte{0x05, 0x00}))
+	out["integers-swapped"] = seq(cat(integer(s), integer(r)))
+	for k, v := range out {
+		if len(v) > 2 && v[0] == 0x30 && v[1] < 0x80 && int(v[1]) != len(v)-2 && k != "trailing-byte-after-sequence" {
+			delete(out, k) // body too long for a short-form length
+		}
+	}
+	return out
+}
